@@ -333,6 +333,31 @@ fn clock(threads: usize, readings: usize) {
     for e in lane0 {
         out.ev(e);
     }
+    // MonotonicInstant::elapsed across a second boundary (base late in a second, now early in the
+    // next one: the nanosecond difference is negative and a second must be borrowed); lane threads + 2
+    {
+        let lane = threads + 2;
+        for _ in 0..2 {
+            let mut base = MonotonicInstant::now();
+            loop {
+                let t: TimeSpec = *base.as_instant().as_ref();
+                if t.nanoseconds() >= 930_000_000 {
+                    break;
+                }
+                std::thread::sleep(std::time::Duration::from_millis(5));
+                base = MonotonicInstant::now();
+            }
+            let base_ts: TimeSpec = *base.as_instant().as_ref();
+            for step in 0..40 {
+                let b = mono();
+                let d = base.elapsed();
+                let a = mono();
+                out.ev(&json!({"ev":"elapsed","lane":lane,"base_s":base_ts.seconds(),"base_ns":base_ts.nanoseconds(),
+                    "ds":d.as_secs(),"dns":d.subsec_nanos(),"bs":b.0,"bns":b.1,"s":a.0,"ns":a.1,"step":step}));
+                std::thread::sleep(std::time::Duration::from_millis(4));
+            }
+        }
+    }
     // sleeps: lane = threads + 1; (a) undisturbed, (b) with SIGUSR1 arriving during the sleep
     let lane = threads + 1;
     let me = unsafe { libc::pthread_self() } as usize;
